@@ -34,7 +34,7 @@ TOK = ["{{T||1=x}}", "{{a|", "|1=", "||", "a", " ", "\n", "==", "===", "=", "* "
        "</span x>", "<nowiki>", "</nowiki>", "<nowiki/>", "<!--", "-->", "<div>", "</div>", "<table>", "<tr>", "<td>", "</td>",
        "</tr>", "</table>", "<li>", "<ul>", "</ul>", "__TOC__", "-{", "}-", "&amp;", "<math>", "</math>", "<hiero>", "</x>",
        "[[File:a.png|thumb|", "[//e.org:443 s]", "</br/>", "<span class={{a}}>", "<b id=a<nowiki/>b>", "<pre class={{a|x}}>",
-       "<div id={{{1}}}>", "<noinclude/>", "<section begin=a/>", "</section>", "[[dog]]s", "[sic]"]
+       "<div id={{{1}}}>", "\thttp://e.org", "\u00a0https://e.org/p", "\rhttp://x.y", "</hl>", "</wbr>", "<hr/>", "<noinclude/>", "<section begin=a/>", "</section>", "[[dog]]s", "[sic]"]
 LIST_KINDS = {NodeKind.LIST}
 MAGIC_LO = MAGIC_NUMBER
 
@@ -215,7 +215,9 @@ for _ in range(4000 if tier == "quick" else 150000):
 # line-structured documents: block-level markers at line starts, nested lists / tables / refs
 # a link trail followed by a token the parser drops silently, then more word characters; cookies that are kept as
 # text (inside <pre>, inside attribute values) whose own arguments contain <nowiki/> or a bracketed word
-for t in ("[[dog]]s<noinclude/>x", "[[dog]]s<section begin=a/>x y", "[[dog]]<noinclude/>s</section>t", "{|\n[[a]]b|-c\n|}",
+for t in ("see\thttp://example.org", "\u00a0http://e.org x", "* a\thttps://e.org\n* b", "''i\rhttp://e.org''",
+          "{| </hl> class=x\n|-\n| cell\n|}", "{|\n|- </wbr> id=r\n| c\n|}", "{| <hr/> x\n| c\n|}", "{| </br> class=y <b>z\n|-\n|}",
+          "[[dog]]s<noinclude/>x", "[[dog]]s<section begin=a/>x y", "[[dog]]<noinclude/>s</section>t", "{|\n[[a]]b|-c\n|}",
           "<pre>{{foo|a<nowiki/>b}}</pre>", "<pre>{{quote|[sic] said}}</pre>", "<span class='{{foo|[x]}}'>y</span>",
           "<pre>[[a|b<nowiki/>c]] {{{1|[d]}}}</pre>", '{| class="{{foo|[x]}}"\n| c\n|}'):
     for o in OPTS_ALL if "OPTS_ALL" in globals() else ({}, {"pre_expand": True}, {"expand_all": True}):
